@@ -1300,6 +1300,29 @@ pub fn c16_epochs(m: &mut EM, g: &EpGen, rng: &mut Rng, thorough: bool) {
             m.next_prev(w, rng.chance(1, 2));
         }
     }
+    // next / previous across every inserted second: UTC epochs within a week either side of each table entry
+    // (the step is 1..7 whole days in the epoch's own scale), every target weekday
+    for (k, (t, _)) in leap_entries().iter().enumerate() {
+        if !thorough && k % 3 != 0 {
+            continue;
+        }
+        for (j, w) in wds.iter().enumerate() {
+            let before = *t as i128 * NS_S as i128 - (1 + ((k + j) % 6)) as i128 * NS_DAY as i128 - rng.below(NS_DAY / 2) as i128;
+            m.eload_dur(TimeScale::UTC, ns_dur(before));
+            m.next_prev(*w, true);
+            let after = *t as i128 * NS_S as i128 + (1 + ((k + j) % 6)) as i128 * NS_DAY as i128 + rng.below(NS_DAY / 2) as i128;
+            m.eload_dur(TimeScale::UTC, ns_dur(after));
+            m.next_prev(*w, false);
+        }
+    }
+    // ... and on epochs held in the dynamical scales
+    for i in 0..(if thorough { 2_000 } else { 200 }) {
+        let ts = if i % 2 == 0 { TimeScale::ET } else { TimeScale::TDB };
+        let day = rng.below(200_000) as i128 - 100_000;
+        m.eload_dur(ts, ns_dur(day * NS_DAY as i128 + 3_600 * NS_S as i128 + rng.below(22 * 3_600 * NS_S) as i128));
+        let w = *rng.pick(&wds);
+        m.next_prev(w, i % 4 < 2);
+    }
     let _ = g;
 }
 
